@@ -6,7 +6,7 @@
    gqlparser; oracle c02_holds in Gw/FedCheck.v). *)
 From Coq Require Import String List Bool.
 From GW Require Import Base.Res Base.GoStr Base.Json Gql.Syntax Gql.Schema Gw.Merge Gw.MergeCheck Gw.Locate Gw.Vars
-     Gw.Plan Proofs.LocateProofs Proofs.RouteProofs Proofs.UrlProofs Proofs.VarsProofs Proofs.PlanProofs.
+     Gw.Plan Proofs.LocateProofs Proofs.RouteProofs Proofs.UrlProofs Proofs.VarsProofs Proofs.PlanProofs Gw.Plan2 Proofs.Plan2Sim.
 Import ListNotations.
 Open Scope string_scope.
 Open Scope list_scope.
@@ -30,6 +30,15 @@ Theorem C02_every_step_is_confined : forall prios urls ft fuel root sels s,
   plan_operation prios urls ft fuel root sels = Ok s -> step_confined prios urls ft fuel s.
 Proof. exact plan_confined. Qed.
 Print Assumptions C02_every_step_is_confined.
+
+(* The model compared with the implementation is the full one, Gw/Plan2.v (named fragment spreads
+   and the per-step fragment definitions included).  On documents without named fragment spreads
+   its plans are, step for step, those of Gw/Plan.v: the theorem above speaks about them. *)
+Theorem C02_full_model_reduces_to_the_simple_one : forall prios urls ft fuel root sels s,
+  nospreads sels -> plan_operation2 prios urls ft [] fuel root sels = Ok s ->
+  plan_operation prios urls ft fuel root sels = Ok (erase s).
+Proof. exact plan2_is_plan. Qed.
+Print Assumptions C02_full_model_reduces_to_the_simple_one.
 
 (* ... the table gateway.New builds has no empty entry ... *)
 Theorem C02_routing_table_has_no_empty_entry : forall iloc sources internal qft key locs,
